@@ -131,11 +131,13 @@ class TLSSession(Session):
         try:
             ssl_sock.connect((host, port))
         except Exception:
+            ssl_sock.close()
             raise TLSError("Could not connect to %s:%s" % (host, port))
 
         try:
             ssl_sock.do_handshake()
         except Exception:
+            ssl_sock.close()
             raise TLSError("Unsuccessful TLS handshake with %s:%s" % (host, port))
 
         self._host = host
